@@ -527,6 +527,25 @@ impl ABuilder {
                 }
                 Arc::new(AsyncAltrootFS::new(root))
             }
+            Cfg::OvShared(inner, dirs) => {
+                let first = self.bases.len();
+                let s = self.node(inner, &format!("{}.0", id), upper);
+                assert!(self.bases.len() == first + 1, "HARNESS: OvShared needs a leaf filesystem");
+                let proto = self.bases.pop().unwrap();
+                let mut roots = vec![];
+                for (i, d) in dirs.iter().enumerate() {
+                    let dir = s.join(&d[1..]).expect("HARNESS: shared layer path");
+                    block_on(dir.create_dir_all()).expect("HARNESS: create shared layer directory");
+                    roots.push(dir);
+                    self.bases.push(ABase {
+                        label: format!("{}{}", proto.label, d),
+                        raw: proto.raw.clone(),
+                        prefix: d.clone(),
+                        upper: upper || i == 0,
+                    });
+                }
+                Arc::new(AsyncOverlayFS::new(&roots))
+            }
             Cfg::Sub(inner, p, exists) => {
                 let first = self.bases.len();
                 let s = self.node(inner, &format!("{}.0", id), upper);
